@@ -203,15 +203,19 @@ class Interp:
         acc: set = set()
         seen: set = set()
         for o in outs:
-            T.opaque_markers(tuple(o.state.pc), acc, seen)
+            # (the memo is by object identity: only objects that stay alive during the scan are passed in)
+            for g in o.state.pc:
+                T.opaque_markers(g, acc, seen)
             T.opaque_markers(o.value, acc, seen)
             for e in o.state.events:
                 T.opaque_markers(e.args, acc, seen)
-                T.opaque_markers(tuple(v for _, v in e.kwargs), acc, seen)
+                for _, v in e.kwargs:
+                    T.opaque_markers(v, acc, seen)
                 if "opq:" in e.target or "TOP[" in e.target:
                     acc.add("RECV:" + e.target.split("#")[0][:60])
             for ho in o.state.heap.values():
-                T.opaque_markers(tuple(ho.fields.values()), acc, seen)
+                for v in ho.fields.values():
+                    T.opaque_markers(v, acc, seen)
                 for it in ho.items:
                     T.opaque_markers(it, acc, seen)
         for m in acc:
@@ -224,7 +228,7 @@ class Interp:
         self.functions_visited[fi.key] = self.functions_visited.get(fi.key, 0) + 1
         saved_env = st.env
         st.env = dict(bound)
-        nctx = Ctx(fi, fi.module, ctx.depth + 1)
+        nctx = Ctx(fi, fi.module, ctx.depth + 1, ctx.where_stack + (fi.qualname.split(".")[-1],))
         # defaults
         for name, dnode in fi.defaults().items():
             if name not in st.env:
@@ -282,6 +286,7 @@ class Interp:
             r = cur.fork()
             del r.events[nev:]  # the operation raised before the later events happened
             r.pc.append(cond)
+            self.__dict__.setdefault("raise_stacks", {}).setdefault(where, set()).add(ctx.where_stack)
             out.append((r, ("raise", ("exc", exc, (), where, None))))
             if is_c(cond) and cond[1] is True:
                 return out  # always raises
@@ -296,7 +301,57 @@ class Interp:
         m = getattr(self, "st_" + type(node).__name__, None)
         if m is None:
             raise AnalysisError(f"unsupported statement {type(node).__name__} at {ctx.loc(node)}")
+        if isinstance(node, (ast.Return, ast.Assign, ast.Expr, ast.AnnAssign)) and getattr(node, "value", None) is not None:
+            hoisted = self._hoist_nested_awaits(node)
+            if hoisted is not None:
+                return self.exec_block(hoisted, st, ctx)
         return m(node, st, ctx)
+
+    def _hoist_nested_awaits(self, node: Any) -> Optional[List[ast.stmt]]:
+        """`return C(await f(x))` -> `$aw1 = await f(x); return C($aw1)`.  An awaited call nested inside the
+        arguments of other calls is lifted to its own statement (so that it is inlined with forking and its
+        effects are kept) when everything Python evaluates before it is a plain name / attribute / constant."""
+        root = node.value
+        if not any(isinstance(n, ast.Await) for n in ast.walk(root)) or isinstance(root, ast.Await):
+            return None
+
+        def simple(e: ast.AST) -> bool:
+            return isinstance(e, (ast.Name, ast.Constant)) or (isinstance(e, ast.Attribute) and simple(e.value))
+
+        def find(e: ast.AST) -> Optional[Tuple[ast.Call, int]]:
+            # e is a Call whose func is simple; look for the first non-simple argument
+            if not isinstance(e, ast.Call) or not simple(e.func) or e.keywords:
+                return None
+            for i, a in enumerate(e.args):
+                if simple(a):
+                    continue
+                if isinstance(a, ast.Await) and isinstance(a.value, ast.Call):
+                    return (e, i)
+                return find(a)
+            return None
+
+        hit = find(root)
+        if hit is None:
+            return None
+        call, i = hit
+        self._comp_n = getattr(self, "_comp_n", 0) + 1
+        tmp = f"$aw{self._comp_n}"
+        aw = call.args[i]
+        import copy as _copy
+        new_node = _copy.deepcopy(node)
+        # locate the same call in the copy by position
+        target = None
+        for n_old, n_new in zip(ast.walk(node), ast.walk(new_node)):
+            if n_old is call:
+                target = n_new
+                break
+        if target is None:
+            return None
+        target.args[i] = ast.copy_location(ast.Name(id=tmp, ctx=ast.Load()), aw)
+        pre = ast.copy_location(ast.Assign(targets=[ast.Name(id=tmp, ctx=ast.Store())], value=aw), node)
+        ast.fix_missing_locations(pre)
+        ast.fix_missing_locations(new_node)
+        return [pre, new_node]
 
     def st_Pass(self, node: ast.Pass, st: State, ctx: Ctx) -> List[Tuple[State, Any]]:
         return [(st, None)]
@@ -342,6 +397,7 @@ class Interp:
             if node.cause is not None:
                 cause = self.eval(node.cause, s, ctx)
             ev = self._as_exc(v, ctx.loc(node), cause)
+            self.__dict__.setdefault("raise_stacks", {}).setdefault(ctx.loc(node), set()).add(ctx.where_stack)
             out.append((s, ("raise", ev)))
         return out
 
@@ -689,9 +745,15 @@ class Interp:
             return list(itv[1])
         if itv[0] == "obj":
             ho = st.heap[itv[1]]
-            if ho.kind == "list" and not ho.symbolic:
+            if ho.kind in ("list", "set") and not ho.symbolic:
                 return list(ho.items)
+            if ho.kind == "dict" and not ho.symbolic:
+                return [k for k, _ in ho.items]
             return None
+        if itv[0] in ("clist", "cset"):
+            return list(itv[1])
+        if itv[0] == "cdict":
+            return [k for k, _ in itv[1]]
         if itv[0] == "class" and itv[1].enum is not None:
             return [("enum", EnumRef(itv[1].key, m)) for m in itv[1].enum.members]
         if itv[0] == "mapobj":
@@ -887,7 +949,12 @@ class Interp:
         args: List[Term] = []
         for a in call.args:
             if isinstance(a, ast.Starred):
-                raise AnalysisError(f"starred argument at {ctx.loc(call)}")
+                sv = self.eval(a.value, st, ctx)
+                items = self.iter_items(sv, st, ctx, call)
+                if items is None:
+                    raise AnalysisError(f"starred argument of unknown length at {ctx.loc(call)}")
+                args.extend(items)
+                continue
             args.append(self.eval(a, st, ctx))
         kwargs: Dict[str, Term] = {}
         for kw in call.keywords:
@@ -1018,6 +1085,11 @@ class Interp:
                     st.heap[oid] = ho
             st.counters.update(o.state.counters)
             return o.value
+        fm = first_match_table(rets, base_pc)
+        if fm is not None:
+            for o in rets:
+                st.counters.update(o.state.counters)
+            return fm
         val: Optional[Term] = None
         for o in reversed(rets):
             ov = o.value
@@ -1140,6 +1212,8 @@ class Interp:
                     xs.append(self.reify(x, st))
             return None if any(x is None for x in xs) else v[:2] + tuple(xs)
         if t == "seq" and all(a[0] == "L" for a in v[2]):
+            return v
+        if t == "structobj" and is_c(v[1]):
             return v
         return None
 
@@ -1471,6 +1545,17 @@ class Interp:
             ast.Is: "is", ast.IsNot: "is not", ast.In: "in", ast.NotIn: "not in",
         }[type(op)]
         a2, b2 = self.canon_cmp_operand(a, st), self.canon_cmp_operand(b, st)
+        # a raw byte string compared with literal bytes: bring the literal to the raw (hex nibble) form too
+        if T.is_seq(a) and T.is_seq(a2) and a[1] == "raw" and is_c(b) and isinstance(b[1], bytes):
+            b2 = ("seq", "raw", (("L", b[1].hex()),) if b[1] else ())
+        elif T.is_seq(b) and T.is_seq(b2) and b[1] == "raw" and is_c(a) and isinstance(a[1], bytes):
+            a2 = ("seq", "raw", (("L", a[1].hex()),) if a[1] else ())
+        if T.is_seq(a2) and T.is_seq(b2) and a2[1] == "raw" and b2[1] == "raw" and name in ("==", "!="):
+            # equality of two byte strings is equality of their hex texts (hexlify is a bijection): one canonical form
+            a2, b2 = ("seq", "s", a2[2]), ("seq", "s", b2[2])
+        elif (T.is_seq(a2) and T.is_seq(b2) and {a2[1], b2[1]} == {"raw", "s"} and name in ("==", "!=")):
+            # bytes versus text of unknown content never compare equal; nothing is folded from their spelling
+            return mkcmp(name, a2, b2)
         folded = fold_cmp(name, a2, b2)
         if folded is not None:
             return c(folded)
@@ -1541,8 +1626,25 @@ class Interp:
         items = []
         for k, v in zip(node.keys, node.values):
             if k is None:
-                raise AnalysisError(f"dict unpacking at {ctx.loc(node)}")
-            items.append((self.eval(k, st, ctx), self.eval(v, st, ctx)))
+                dv = self.eval(v, st, ctx)
+                pairs = None
+                if dv[0] == "cdict":
+                    pairs = list(dv[1])
+                elif dv[0] == "obj" and st.heap[dv[1]].kind == "dict" and not st.heap[dv[1]].symbolic:
+                    pairs = list(st.heap[dv[1]].items)
+                if pairs is None:
+                    raise AnalysisError(f"dict unpacking of an unknown mapping at {ctx.loc(node)}")
+                for k2, v2 in pairs:
+                    if any(k3 == k2 for k3, _ in items):
+                        items = [(k3, v2 if k3 == k2 else v3) for k3, v3 in items]
+                    else:
+                        items.append((k2, v2))
+                continue
+            kk, vv = self.eval(k, st, ctx), self.eval(v, st, ctx)
+            if any(k3 == kk for k3, _ in items):
+                items = [(k3, vv if k3 == kk else v3) for k3, v3 in items]
+            else:
+                items.append((kk, vv))
         return st.alloc(HeapObj("dict", None, {}, items))
 
     def ev_JoinedStr(self, node: ast.JoinedStr, st: State, ctx: Ctx) -> Term:
@@ -1782,6 +1884,47 @@ def unlift(v: Term) -> Any:
     raise ValueError(f"not a constant: {v[0]}")
 
 
+def first_match_table(rets: List[Outcome], base_pc: int = 0) -> Optional[Term]:
+    """A function that searches a constant key by a first-match scan (`for m in Enum: if m.value == x: return m`,
+    an if/elif chain on `x == k`) returns the same thing as a table lookup: canonicalised to the `lookup` term a
+    dict built from the same pairs yields (with the default, if the scan can fall through to a return)."""
+    if len(rets) < 2:
+        return None
+    x = None
+    table: List[Tuple[Term, Term]] = []
+    default: Optional[Term] = None
+    for o in rets:
+        if isinstance(o.value, tuple) and o.value and o.value[0] == "obj":
+            return None
+        atoms: List[Term] = []
+        for g in o.state.pc[base_pc:]:
+            atoms.extend(_atoms(g))
+        pos = [a for a in atoms if isinstance(a, tuple) and a[:2] == ("cmp", "==")]
+        negs = [a for a in atoms if isinstance(a, tuple) and a[:2] == ("cmp", "!=")]
+        if len(pos) + len(negs) != len(atoms) or len(pos) > 1:
+            return None
+        for a in pos + negs:
+            if x is None:
+                x = a[2]
+            if a[2] != x or not _known(a[3]):
+                return None
+        if pos:
+            k = pos[0][3]
+            if any(k2 == k for k2, _ in table) or {a[3] for a in negs} != {k2 for k2, _ in table}:
+                return None
+            table.append((k, o.value))
+        else:
+            if default is not None or {a[3] for a in negs} != {k2 for k2, _ in table} or o is not rets[-1]:
+                return None
+            default = o.value
+    if x is None or len(table) < 2:
+        return None
+    look: Term = ("lookup", tuple(table), x)
+    if default is None:
+        return look
+    return ite(("cmp", "in", x, ("tuple", tuple(k for k, _ in table))), look, default)
+
+
 def decided_by(pc: List[Term], cond: Term) -> Optional[bool]:
     """Literal-level decision of `cond` from the guards already on the path (no solving):
     True if every conjunct of cond is already a guard, False if some conjunct's negation is."""
@@ -1893,7 +2036,7 @@ def ite(cond: Term, a: Term, b: Term) -> Term:
     return ("ite", cond, a, b)
 
 
-_FLIP = {"==": "==", "!=": "!=", "<": ">", "<=": ">=", ">": "<", ">=": "<="}
+_FLIP = {"==": "==", "!=": "!=", "<": ">", "<=": ">=", ">": "<", ">=": "<=", "is": "is", "is not": "is not"}
 
 
 def _cmp_rank(v: Term) -> int:
@@ -1919,6 +2062,8 @@ def mkcmp(op: str, a: Term, b: Term) -> Term:
 def fold_cmp(op: str, a: Term, b: Term) -> Optional[bool]:
     """Decide a comparison when both sides are fully known; None otherwise."""
     if op in ("is", "is not"):
+        if is_c(a) and a[1] is None and not (is_c(b) and b[1] is None):
+            a, b = b, a   # identity is symmetric
         if is_c(b) and b[1] is None:
             if is_c(a):
                 r = a[1] is None
@@ -1953,7 +2098,7 @@ def fold_cmp(op: str, a: Term, b: Term) -> Optional[bool]:
         if (is_c(a) and a[1] is None and b[0] in ("enum", "obj", "seq")) or (is_c(b) and b[1] is None and a[0] in ("enum", "obj", "seq")):
             return op == "!="
         # literal text vs symbolic text of a provably different constant width
-        if T.is_seq(a) and T.is_seq(b):
+        if T.is_seq(a) and T.is_seq(b) and a[1] == b[1]:
             wa, wb = T.const_width(a), T.const_width(b)
             if wa is not None and wb is not None and wa != wb:
                 return op == "!="
